@@ -98,6 +98,7 @@ def make_config(seed, tier="quick"):
         # a first session that the peer drops; the judged session is the one after the reconnect (state left
         # behind by the first connection must not disturb the watchdog of the second)
         prelude_drop=prelude,
+        wrong_dup=random.Random(seed ^ 0xC12D0).random() < 0.4,
         prelude_mode=random.Random(seed ^ 0xC1290).choice(["peer_drop", "peer_drop", "app_logout"]),
         prelude_pause_s=random.Random(seed ^ 0xC1291).choice([0.4, 1.2, 2.3, 3.4]),
         prelude_after=round(r.uniform(0.05, 1.2) * hb, 3),
@@ -342,7 +343,12 @@ class WatchdogSim(PeerSim):
             p.send("0", [("112", reqid)], seq=p.next_out + 1, spec={"plan": "answer_gap"})
         elif mode == "wrong":
             self.wrong_sent_at.append(self.loop.time())
-            p.send("0", [("112", str(int(reqid or 0) + 13))], spec={"plan": "answer_wrong"})
+            wrong = str(int(reqid or 0) + 13)
+            if self.cfg.get("wrong_dup"):
+                # the wrong echo carries TestReqID twice (both wrong): still a wrong echo
+                p.send("0", [("112", wrong), ("112", str(int(reqid or 0) + 14))], spec={"plan": "answer_wrong"})
+            else:
+                p.send("0", [("112", wrong)], spec={"plan": "answer_wrong"})
         elif mode == "noid":
             p.send("0", [], spec={"plan": "answer_noid"})
 
